@@ -16,11 +16,11 @@ LEX = {
     "n_x": b"x", "n_VAR": b"VAR_A", "n_acc": "été".encode(), "n_my": b"mytask", "n_long": b"build_all", "n_T": b"T", "n_us": b"_priv",
     "n_tasks": b"tasks", "n_taskdir": b"task_dir", "n_heb": "task\u05d0".encode(), "n_cyr": "\u0441\u0431\u043e\u0440\u043a\u0430".encode(), "n_cjk": "\u4efb\u52a1".encode(),
     "s_ago": b"a.go", "s_empty": b"", "s_glob": b"**/*.go", "s_uni": "hé".encode(), "s_hash": b"a#b", "s_sp": b"a b", "s_brace": b"a{b",
-    "s_dir": b"./bin/main", "s_dot": b".", "s_tpl": b"{{.X}}",
+    "s_dir": b"./bin/main", "s_dot": b".", "s_tpl": b"{{.X}}", "s_bs": b"C:\\tools\\x", "s_tab": b"a\tb", "s_pct": b"80%", "s_ctl": b"a\x01b",
     "c_plain": b" hello", "c_empty": b"", "c_ws": b"  ", "c_kw": b" task t() {", "c_nosp": b"nospace", "c_uni": " café".encode(), "c_hash": b" a # b",
     "c_assign": b" x := \"1\"",
     "m_go": b"go test ./...", "m_tpl": b"echo {{.VAR_A}}", "m_x": b"x", "m_pipe": b'echo "a b" | wc -l', "m_adj": b"cp{{.X}}y z", "m_flag": b"rm -rf ./bin",
-    "m_env": b"GOOS=linux go build", "m_two": b"echo {{.A}} {{.B}}", "m_semi": b"cd dir; ls",
+    "m_env": b"GOOS=linux go build", "m_two": b"echo {{.A}} {{.B}}", "m_semi": b"cd dir; ls", "m_pct": b"date +%Y-%m-%d", "m_bs": b"grep '\\d+' x",
     "f_join": b"join", "f_exec": b"exec",
 }
 NAMES = [k for k in LEX if k.startswith("n_")]
@@ -216,7 +216,7 @@ EXTRA_MC = []
 
 # ---------------------------------------------------------------- loose layouts (accepted-but-unusual texts) for C07 C11 C15 (and C08 C16)
 L_IDENTS = [b"x", b"tasks", b"taskx", b"task", b"join", b"T", "é".encode(), b"_a", b"mytask", b"exec", b"task_a", "task\u05d0".encode(), "\u05d0".encode()]
-L_STRS = [b'"a"', b'""', b'"task"', b'"*.go"', b'"a b"']
+L_STRS = [b'"a"', b'""', b'"task"', b'"*.go"', b'"a b"', b'"a\\b"', b'"50%"', b'"x\ty"']
 L_COMMENTS = [b" c", b"", b" ", b"x", b" task t() {", b"#"]
 L_CMDS = [b"go build", b"x", b"echo {{.x}}", b"ls -l", b"task x", b"echo a\r", b"ls \r", b"a\r\r", b"b  "]
 L_SEPS = [b"", b"", b" ", b" ", b"\n", b"\n", b"\t", b"  ", b"\n\n", b" \n", b"\r\n", b"\r", b"\r "]
